@@ -317,7 +317,7 @@ class Gen:
                     n = max(0, ln - a) if a <= ln else 0
                     if a > ln:
                         continue
-                if n > 3000 and not self.big and not r.chance(1, 20):
+                if n > 3000 and not r.chance(1, 40 if self.big else 20):
                     n = r.below(300)
                 emit(("dmput", self.fresh(), s, a, self.data(n)))
                 written.append(a)
@@ -348,9 +348,9 @@ class Gen:
                 a = self.addr([65535, 65533] + written[-2:], 65536)
                 opts = [0, 1, 2, 3, 65536 - a, 65536 - a + 1, 65536 - a + 2, r.below(40)]
                 n = r.choice(opts)
-                if n > 3000 and not self.big and not r.chance(1, 20):
+                if n > 3000 and not r.chance(1, 40 if self.big else 20):
                     n = r.below(300)
-                if self.big and r.chance(1, 30):
+                if self.big and r.chance(1, 400):
                     n = 65536 + r.below(5000)
                 if self.scope_only and sp.env[s][2] is None and n > 0:
                     continue
@@ -429,9 +429,9 @@ def boundary_suite():
         seqs.append(s)
     # MapMemory: defaults, nil, wrap, Clone, Clear, Equal
     s = [("mmnew", 1), ("mmnil", 2), ("mmget", 1, 0), ("mmget", 1, 65535), ("mmget", 2, 7),
-         ("mmset", 2, 1, 1), ("mmput", 3, 2, 1, ()), ("mmput", 4, 2, 1, (5,)), ("mmclear", 2), ("mmclone", 5, 2),
+         ("mmput", 3, 2, 1, ()), ("mmclear", 2), ("mmclone", 5, 2),
          ("mmset", 5, 3, 4), ("mmget", 5, 3), ("mmget", 2, 3),
-         ("mmequal", 2, "var", 2), ("mmequal", 2, "var", 1), ("mmequal", 1, "var", 2), ("mmequal", 1, "var", 1),
+         ("mmequal", 2, "var", 1), ("mmequal", 1, "var", 2), ("mmequal", 1, "var", 1),
          ("mmequal", 1, "nilif", 0), ("mmequal", 2, "nilif", 0), ("mmequal", 1, "raw", 1), ("mmequal", 2, "raw", 2),
          ("mmput", 6, 1, 65535, (1, 2, 3)), ("mmget", 1, 65535), ("mmget", 1, 0), ("mmget", 1, 1), ("mmget", 1, 2),
          ("mmget", 6, 0), ("mmput", 7, 1, 65534, (9,)), ("mmget", 1, 65534), ("mmget", 1, 65535),
@@ -442,7 +442,9 @@ def boundary_suite():
          ("mmclear", 8), ("mmget", 8, 0), ("mmget", 8, 65535), ("mmget", 8, 501), ("mmget", 1, 0),
          ("mmnew", 9), ("mmequal", 8, "var", 9), ("mmequal", 9, "var", 8), ("mmequal", 1, "var", 9),
          ("mmclear", 1), ("mmequal", 1, "var", 9), ("mmget", 6, 65535), ("mmget", 7, 1),
-         ("dmmake", 10, 4), ("iomake", 11, 4), ("mmequal", 1, "var", 10), ("mmequal", 1, "var", 11)]
+         ("dmmake", 10, 4), ("iomake", 11, 4), ("mmequal", 1, "var", 10), ("mmequal", 1, "var", 11),
+         # outside the property text (uninitialised map): recorded behaviour of the real code
+         ("mmequal", 2, "var", 2), ("mmset", 2, 1, 1), ("mmput", 4, 2, 1, (5,)), ("mmget", 2, 1), ("mmequal", 2, "var", 3)]
     seqs.append(s)
     # same number of keys, different keys / different values
     s = [("mmnew", 1), ("mmnew", 2), ("mmnew", 3), ("mmset", 1, 1, 1), ("mmset", 2, 2, 1), ("mmset", 3, 1, 2),
@@ -453,8 +455,8 @@ def boundary_suite():
     return seqs
 
 
-def sweep_addrs(tier, n):
-    if tier == "thorough":
+def sweep_addrs(tier, n, full_in_quick=False):
+    if tier == "thorough" or full_in_quick:
         return range(65536), True
     pts = set(range(0, 65536, 251))
     for m in (0, n, 255, 256, 65535, 32768):
@@ -469,7 +471,7 @@ def sweeps(tier):
     seqs = []
     exhaustive = True
     for n in LENGTHS:
-        addrs, ex = sweep_addrs(tier, n)
+        addrs, ex = sweep_addrs(tier, n, full_in_quick=True)
         exhaustive = exhaustive and ex
         s = [("dmmake", 1, n)]
         s += [("dmget", 1, a) for a in addrs]
@@ -481,7 +483,7 @@ def sweeps(tier):
         s += [("ioout", 1, p, (p * 11 + n) % 255 + 1) for p in range(256)]
         s += [("ioin", 1, p) for p in range(256)]
         seqs.append(s)
-    addrs, ex = sweep_addrs(tier, 65536)
+    addrs, ex = sweep_addrs(tier, 65536, full_in_quick=True)
     s = [("mmnew", 1)]
     s += [("mmget", 1, a) for a in addrs]
     s += [("mmset", 1, a, (a * 13 + 5) % 255 + 1) for a in addrs]
@@ -493,6 +495,7 @@ def sweeps(tier):
     s += [("mmget", 2, 40000), ("mmget", 2, 39999)]
     seqs.append(s)
     # one Put of a whole 64 KiB image and more, starting near the top (wraps)
+    addrs, ex = sweep_addrs(tier, 65536)
     big = tuple((i * 3 + 1) % 251 for i in range(65536 + 300))
     s = [("mmnew", 1), ("mmput", 2, 1, 65000, big[:65536])]
     s += [("mmget", 1, a) for a in addrs]
@@ -708,6 +711,12 @@ def run(tier, seed):
     if pa["axioms"] or pa["closed"] != ntheorems:
         raise RuntimeError("Print Assumptions: %d closed of %d, axioms %r" % (pa["closed"], ntheorems, pa["axioms"]))
     obligations = common.count_obligations(closure)
+    coqchk_note = "not run (quick tier)"
+    if tier == "thorough":
+        rc, o = common.sh(["coqchk", "-silent", "-o", "-Q", "theories", "Z80V", "Z80V.Props.C15"], cwd=common.COQ, timeout=1500)
+        if rc or "Axioms: <none>" not in re.sub(r"\s+", " ", o):
+            raise RuntimeError("coqchk failed or reports axioms:\n" + o[-2000:])
+        coqchk_note = "coqchk -silent -o Z80V.Props.C15: ok, Axioms: <none>"
 
     # ---- 1./3. builds against the CURRENT working tree
     modelbin = build_model()
@@ -821,6 +830,7 @@ def run(tier, seed):
         "checker_cmd": "make -C coq " + " ".join(targets) + " ; coqc theories/Props/C15.v (Print Assumptions: %d x Closed under the global context)" % pa["closed"],
         "trusted_base": TRUSTED,
         "theorems": ntheorems,
+        "coqchk": coqchk_note,
         "evaluations": total_ops,
         "sequences": len(seqs),
         "distinct_nontrivial": len(distinct),
@@ -832,7 +842,7 @@ def run(tier, seed):
         "samples": samples,
         "exhaustive": bool(exhaustive),
         "exhaustive_note": ("all 65,536 addresses for slice lengths %s and for MapMemory, all 256 ports for DumbIO" % LENGTHS) if exhaustive
-                           else "quick tier: all 256 ports for DumbIO; addresses = stride 251 + windows around 0, len, 255/256, 32768, 65535 (the full sweep runs in the thorough tier)",
+                           else "quick tier: all 256 ports for DumbIO at every length; all 65,536 addresses for MapMemory and for DumbMemory of every stated length; only the reads after the two 64 KiB Put blocks are sampled (stride 251 + boundary windows)",
         "distribution": {"ops_by_origin": per_origin, "generator": stats, "slice_lengths": LENGTHS,
                          "timing_s": {"go": round(t2 - t1, 2), "model": round(t3 - t2, 2)}},
     }
